@@ -140,6 +140,7 @@ func C14(c *core.Ctx) {
 		trust [][]byte
 		files map[uint16][]byte
 		p     *perso.Passport
+		blob  []byte        // the untampered export of session a
 		only1 bool          // genuine-evidence matrix: export / offline comparison only
 		extra []sessOutcome // further genuine sessions (RSA: one whose signature plus the modulus keeps its length)
 	}
@@ -226,6 +227,7 @@ func C14(c *core.Ctx) {
 			c.Violation("C14:export-fails", fmt.Sprintf("ToCbor failed (%s): %v", name, err), nil)
 			continue
 		}
+		l.blob = blob
 		off := offlineVerify(blob, l.trust, nil)
 		if off.err != "" || off.docEx == nil {
 			c.Violation("C14:genuine-evidence-does-not-verify", fmt.Sprintf("offline verification of an untampered export failed (%s): %s", name, off.err), map[string]any{"config": l.m.cfg, "variety": fmt.Sprintf("%+v", l.v)})
@@ -458,7 +460,13 @@ func C14(c *core.Ctx) {
 			results[i].skip = "export refused: " + err.Error()
 			return
 		}
-		off := offlineVerify(blob, l.trust, nil)
+		// every second case on a Verifier that has verified the untampered export of the same session just before
+		var off offlineOut
+		if i%2 == 0 && l.blob != nil {
+			off = offlineVerifyAfter(l.blob, blob, l.trust)
+		} else {
+			off = offlineVerify(blob, l.trust, nil)
+		}
 		if off.err != "" || off.docEx == nil {
 			results[i].verdict, results[i].err = "failed", off.err // rejected as a whole
 			results[i].whole = true
